@@ -969,5 +969,119 @@ def rule_X7(ctx):
         ctx.broken("ec_insert: only %s of append / insert / change classified" % sorted(k for k, o in seen))
 
 
+# ----------------------------------------------------------------------------------------
+# X8: a range read after a failed address resolution was set by someone
+
+
+def rule_X8(ctx):
+    """ex_region leaves *beg / *end untouched on some failing returns.  A caller that still
+    reads them on the failure path (ec_insert recognising address 0) must have initialised
+    them, otherwise the verdict on a bad address depends on stack contents."""
+    ctx.begin("X8", floor=1, what="reads of the range on the failure path of ex_region")
+    prog = ctx.prog
+    er = prog.func("ex_region", file="ex.c")
+    outs_p = [p["name"] for p in er.params[1:3]]
+    # does every failing return of ex_region store both out-parameters first?
+    always = True
+    from ..cfg import paths_to
+    from ..util import path_consistent
+    for r in er.cfg.return_nodes():
+        if cval(r.get("e")) == 0:
+            continue
+        for items in paths_to(er.cfg, er.cfg.entry, r["id"], max_paths=3000):
+            stored = set()
+            for x in items:
+                if x[0] != "ev":
+                    continue
+                n = er.nodes.get(x[1])
+                if n is not None and n["k"] == "bin" and n["op"] == "=" and n["l"]["k"] == "un" and \
+                        n["l"]["op"] == "*" and strip_casts(n["l"]["e"])["k"] == "ref":
+                    stored.add(strip_casts(n["l"]["e"])["name"])
+            if not set(outs_p) <= stored:
+                always = False
+    n_sites = 0
+    for f in prog.funcs.values():
+        for c in f.calls("ex_region"):
+            vars_ = []
+            for a in c["args"][1:3]:
+                a = strip_casts(a)
+                if a["k"] == "un" and a["op"] == "&" and a["e"]["k"] == "ref":
+                    vars_.append(a["e"]["name"])
+            if len(vars_) != 2:
+                continue
+            # reads evaluated only when the call failed: the right operand of `call && ...`
+            par = f.nodes.get(f.parent.get(c["id"]))
+            reads = []
+            if par is not None and par["k"] == "bin" and par["op"] == "&&" and \
+                    any(x["id"] == c["id"] for x in walk(par["l"])):
+                reads = [x for x in walk(par["r"]) if x["k"] == "ref" and x["name"] in vars_]
+            if not reads:
+                continue
+            n_sites += 1
+            inits = {v["name"] for v in f.walk() if v["k"] == "var" and v["name"] in vars_ and v.get("init") is not None}
+            pre = {lv["name"] for n, lv, op, rhs in stores(f.body) if lv["k"] == "ref" and lv["name"] in vars_
+                   and op == "=" and f.cfg.pos(n) is not None and f.cfg.dominates(n, c)}
+            if always or set(vars_) <= (inits | pre):
+                ctx.ok(f.name, "%s are set before they are read on ex_region's failure path" % ", ".join(vars_),
+                       loc=f.loc(c))
+            else:
+                ctx.violation(f.name, "range read after a failed address is initialised",
+                              "when ex_region fails early (unset mark, failed search) it stores neither bound, "
+                              "yet `%s` reads %s: whether the bad address is rejected or taken for address 0 "
+                              "depends on uninitialised stack contents" % (
+                                  key(par["r"])[:40], ", ".join(sorted(set(vars_) - inits - pre))), f.loc(c))
+    if not n_sites:
+        ctx.note("no caller reads the range on the failure path")
+        ctx.ok("ex_region", "no caller reads the range on the failure path")
+
+
+# ----------------------------------------------------------------------------------------
+# T6: every empty match is stepped over
+
+
+def rule_T6(ctx):
+    """In ec_substitute the one-character step that follows a zero-length match must be taken
+    for an empty match at any offset: the guard of the step is implied by end == start."""
+    ctx.begin("T6", floor=1, what="step after a zero-length match in ec_substitute")
+    from ..lin import feasible
+    prog = ctx.prog
+    f = prog.func("ec_substitute", file="ex.c")
+    offs = None
+    for c in f.calls(("rstr_find", "rset_find")):
+        a = strip_casts(c["args"][3])
+        if a["k"] == "ref":
+            offs = a["name"]
+    if offs is None:
+        raise AnalysisBroken("ec_substitute: matcher out-array not found")
+    found = 0
+    for st in f.walk():
+        if st["k"] != "if" or st.get("t") is None:
+            continue
+        body = list(walk(st["t"]))
+        # the step: the subject pointer advanced by a decoded character length
+        steps = [x for x in body if x["k"] == "bin" and x["op"] == "+=" and x["l"]["k"] == "ref" and
+                 x["l"].get("ptr") and any(is_call(y, "uc_len") or (y["k"] == "ref" and y.get("cat") == "local")
+                                           for y in walk(x["r"]))]
+        if not steps or not any(r_["name"] == offs for r_ in refs(st["c"])):
+            continue
+        found += 1
+        s0, s1 = Lin({"%s[0]" % offs: 1}), Lin({"%s[1]" % offs: 1})
+        hy = [s0, s1 - s0, s0 - s1]                       # 0 <= start == end
+        neg = cmp_constraints(st["c"], False)
+        if not neg and st["c"]["k"] == "bin" and st["c"]["op"] in ("==", "!="):
+            ctx.inconclusive("ec_substitute", "empty match is stepped over", "guard %s not linear" % key(st["c"]))
+            continue
+        if feasible(hy + neg):
+            ctx.violation("ec_substitute", "empty match is stepped over",
+                          "the one-character step is guarded by `%s`, which is false for an empty match that "
+                          "starts after offset 0 (%s[0] == %s[1] > 0): the same empty match is found again at "
+                          "the same place and replaced twice" % (key(st["c"]), offs, offs), f.loc(st))
+        else:
+            ctx.ok("ec_substitute", "the step is taken whenever the match is empty (`%s`)" % key(st["c"]),
+                   loc=f.loc(st))
+    if not found:
+        raise AnalysisBroken("ec_substitute: the step after a zero-length match was not found")
+
+
 RULES = {"B12": rule_B12, "B13": rule_B13, "W9": rule_W9, "X6": rule_X6, "T5": rule_T5, "S5": rule_S5,
-         "G5": rule_G5, "G6": rule_G6, "P2": rule_P2, "G7": rule_G7, "M4": rule_M4, "N7": rule_N7, "X7": rule_X7}
+         "G5": rule_G5, "G6": rule_G6, "P2": rule_P2, "G7": rule_G7, "M4": rule_M4, "N7": rule_N7, "X7": rule_X7, "X8": rule_X8, "T6": rule_T6}
